@@ -7,6 +7,7 @@ import (
 	"fmt"
 	"os"
 	"os/signal"
+	"runtime/pprof"
 	"strings"
 	"syscall"
 	"time"
@@ -39,6 +40,12 @@ func main() {
 	switch os.Args[1] {
 	case "worker":
 		kernel.ExitAfterResponse = func() bool { return ee.ExitAfter }
+		if pf := os.Getenv("VERIF_EE_CPUPROFILE"); pf != "" {
+			if f, err := os.Create(fmt.Sprintf("%s.%d", pf, os.Getpid())); err == nil {
+				pprof.StartCPUProfile(f)
+				defer pprof.StopCPUProfile()
+			}
+		}
 		kernel.WorkerMain(ee.Exec)
 		ee.Cleanup()
 	case "alphabet":
